@@ -516,6 +516,15 @@ class SDENextLevel(FunctionContract):
             log(("driver.next_level", b["path_managers"], b["max_step_epsilon"], b["mc_paths"]))
             b["self"].fields["fine_process"] = g["new_driver_fine"]
         interp.hooks[CM + "CouplingMarkovChain.next_level"] = driver_next
+
+        def sde_drift_now(it, f, b):
+            # the drift function of the SDE scheme on the grid "as it is now": tagged with how often the driver coupling
+            # (which refines the grid) has advanced when it is asked for
+            g = ctx.PATH.ghost
+            n_adv = [e[0] for e in g.get("log", [])].count("driver.next_level")
+            log(("sde_drift_of_the_current_level", n_adv))
+            return g["sde_new"] if n_adv == 1 else g["sde_stale"]
+        interp.hooks[CS + "CouplingSDE._sde_drift_of_the_current_level"] = sde_drift_now
         interp.hooks["rpylib.process.markovchain.markovchain:MarkovChainProcess.process_drift"] = lambda it, f, b: b["self"].fields["_drift_tag"]
         interp.hooks["rpylib.montecarlo.path:MCPath.update"] = lambda it, f, b: None
         interp.hooks[LM + "LevyModel.blumenthal_getoor_index"] = lambda it, f, b: ctx.PATH.ghost["beta"]
@@ -537,8 +546,10 @@ class SDENextLevel(FunctionContract):
         sde_fine = vc.obj("rpylib.process.markovchain.markovchainsde:MarkovChainSDE", markov_chain=level0_chain)
         model = vc.obj("rpylib.model.levydrivensde.levydrivensde:LevyDrivenSDEModel", driver=vc.obj(LM + "LevyModel"))
         spots = vc.real("spots")
+        sde_h, sde_2h, sde_new, sde_stale = (vc.real(n_) for n_ in ("sde_drift_fine_old", "sde_drift_coarse_old", "sde_drift_on_the_refined_grid", "sde_drift_on_the_unrefined_grid"))
         o = vc.obj(CS + "CouplingSDE", level=lvl, model=model, driver_coupling_process=driver, fine_process=sde_fine, mc_drift_h=d_h, mc_drift_2h=d_2h,
-                   epsilon=vc.real("eps_old"), _process_representation=None, _spots=spots)
+                   sde_drift_h=sde_h, sde_drift_2h=sde_2h, epsilon=vc.real("eps_old"), _process_representation=None, _spots=spots)
+        g.update(sde_h=sde_h, sde_new=sde_new, sde_stale=sde_stale)
         pm = vc.obj("rpylib.montecarlo.path:MCPath", deterministic_path=None)
         pms = [pm]
         g.update(h=h, beta=beta, lvl=lvl, d_h=d_h, d_new=d_new, new_driver_fine=new_driver_fine, pms=pms, spots=spots, mcp=vc.int("mc_paths"), x0_now=spots)
@@ -555,6 +566,9 @@ class SDENextLevel(FunctionContract):
         out = {"level-advances": f["level"] == g["lvl"] + 1,
                "coarse-driver-drift-is-the-previous-fine-driver-drift": f["mc_drift_2h"] == g["d_h"],
                "fine-driver-drift-is-the-new-fine-chain's": f["mc_drift_h"] == g["d_new"],
+               # "the coarse drift ... [is that] of level l-1", for the drift of the SDE scheme too (it depends on the grid)
+               "coarse-sde-drift-is-the-previous-fine-sde-drift": f.get("sde_drift_2h") is not None and f["sde_drift_2h"] == g["sde_h"],
+               "fine-sde-drift-is-the-scheme's-on-the-refined-grid": f.get("sde_drift_h") is not None and f["sde_drift_h"] == g["sde_new"],
                "time-step-cap-is-(h/2)^beta": f["epsilon"] == eps,
                "driver-coupling-advances-exactly-once-without-path-managers-with-the-new-cap":
                    kinds.count("driver.next_level") == 1 and log[kinds.index("driver.next_level")][1] is None
@@ -572,7 +586,46 @@ class SDENextLevel(FunctionContract):
         return out
 
 
+def _sde_drift_replay():
+    """Levy Libor model (CGMY driver): after next_level the fine component must be drifted with the scheme's drift on the
+    refined grid and the coarse one with the drift of the level before (zz(h) = second moment of the simulated jumps)"""
+    import warnings
+    from rpylib.distribution.sampling import SamplingMethod
+    from rpylib.grid.spatial import CTMCUniformGrid
+    from rpylib.model.levydrivensde.levylibormodel import LevyLiborModel
+    from rpylib.model.utils import create_levy_model, ModelType
+    from rpylib.montecarlo.path import MLMCPath
+    from rpylib.process.coupling.couplingsde import CouplingSDE
+    from rpylib.process.markovchain.markovchainsde import MarkovChainLevyLiborModel
+    from rpylib.product.payoff import Swaption
+    from rpylib.product.product import Product
+    from rpylib.product.underlying import Libors
+    with warnings.catch_warnings():
+        warnings.simplefilter("ignore")
+        driver = create_levy_model(ModelType.CGMY)(c=0.5, g=10, m=12, y=0.8)
+        model = LevyLiborModel(libor_rates=[0.02, 0.025, 0.03], tenors=[1.0, 1.5, 2.0, 2.5], sigma=np.array([[0.5], [0.8], [1.0]]), driver=driver)
+        product = Product(payoff_underlying=Libors(), payoff=Swaption(underlying_rates=model.x0, deltas=model.deltas, strike=0.025), maturity=1.0, notional=100.0)
+        method = SamplingMethod.BINARYSEARCHTREEADAPTED1D
+        cp = CouplingSDE(model=model, grid=CTMCUniformGrid(h=0.05, model=model), method=method)
+        product.update(cp.fine_process.process_representation)
+        cp.initialisation(product)
+        managers = [MLMCPath(deterministic_path=cp.fine_process.deterministic_path, activate_spot_underlying=False)]
+        cp.pre_computation(mc_paths=2, product=product)
+        x = np.array([model.x0]).T
+        scheme = lambda h: (lambda p_: (p_.initialisation(product), p_.sde_drift(0.0, x).ravel())[1])(MarkovChainLevyLiborModel(model=model, method=method, grid=CTMCUniformGrid(h=h, model=model)))
+        cp.next_level(2, managers, product)
+        used_fine = getattr(cp, "sde_drift_h", None) or cp.fine_process.sde_drift
+        used_coarse = getattr(cp, "sde_drift_2h", None) or cp.fine_process.sde_drift
+        got = [used_fine(0.0, x).ravel(), used_coarse(0.0, x).ravel()]
+        want = [scheme(0.025), scheme(0.05)]
+        bad = not (np.allclose(got[0], want[0], rtol=1e-9, atol=0) and np.allclose(got[1], want[1], rtol=1e-9, atol=0))
+        return (bool(bad), {"level": 1, "fine_grid_h": 0.025, "sde_drift_used_fine": got[0].tolist(), "scheme_on_h=0.025": want[0].tolist(),
+                            "sde_drift_used_coarse": got[1].tolist(), "scheme_on_h=0.05": want[1].tolist()})
+
+
 def _sde_next_level_replay(self, model, clause, case):
+    if "sde-drift" in clause:
+        return _sde_drift_replay()
     if "reassigned" not in clause:
         return None
     import warnings
